@@ -20,9 +20,10 @@ func init() {
 
 func runC01(c *Ctx) {
 	c.Rule("R1.1", 24, "memo-field completeness across the four operator accessors")
-	c.Rule("R1.2", 2, "synthesised names are outside the user's name space and injective")
+	c.Rule("R1.2", 3, "synthesised names are outside the user's name space and injective")
 	c.Rule("R1.3", 13, "operator expansion schema generates the documented repetition counts")
 	c.Rule("R1.4", 5, "concatenation / alternation / trailing bar / rule actions")
+	c.Rule("R1.6", 1, "the memo's hash agrees with its equality (equal sets of alternatives hash alike)")
 	c.Rule("R1.5", 1, "string literals and token names do not share one symbol space")
 
 	c.mute = map[string]bool{"R4.2": true, "R5.4": true}
@@ -39,6 +40,7 @@ func runC01(c *Ctx) {
 	checkJuxtapositionAndUnion(c, ev)
 	checkMemoCompleteness(c)
 	checkNameSpaces(c, ev)
+	checkMemoHashEq(c, "R1.6", sp)
 }
 
 // ---------- R1.3 ----------
@@ -714,6 +716,46 @@ func checkNameSpaces(c *Ctx, ev *evaluator) {
 			}
 		}
 		sort.Strings(clash)
+		// (b') the table itself is injective: two terminals spelled with one word share every synthesised rule
+		byWord := map[string][]string{}
+		undecidedTable := false
+		if cl, ok := init.(*ast.CompositeLit); ok {
+			for _, el := range cl.Elts {
+				kv, ok := el.(*ast.KeyValueExpr)
+				if !ok {
+					undecidedTable = true
+					continue
+				}
+				k, ok1 := constStr(info, kv.Key)
+				v, ok2 := constStr(info, kv.Value)
+				if !ok1 || !ok2 {
+					undecidedTable = true
+					continue
+				}
+				byWord[v] = append(byWord[v], k)
+			}
+		} else {
+			undecidedTable = true
+		}
+		var dup []string
+		for w, ks := range byWord {
+			if len(ks) > 1 {
+				sort.Strings(ks)
+				dup = append(dup, fmt.Sprintf("%q and %q are both spelled %s", ks[0], ks[1], w))
+			}
+		}
+		sort.Strings(dup)
+		if undecidedTable && len(dup) == 0 {
+			c.Undecided("R1.2", "distinct terminals are spelled out with distinct words", init.Pos(), "the table of spelled-out names is not a literal of constant keys and values")
+		} else {
+			w3 := ""
+			if len(dup) > 0 {
+				ks := byWord[strings.Fields(dup[0])[len(strings.Fields(dup[0]))-1]]
+				w3 = fmt.Sprintf("start = [%q] \"x\" [%q];  -> both options share one synthesised rule deriving either terminal", ks[0], ks[1])
+			}
+			c.Check("R1.2", "distinct terminals are spelled out with distinct words", init.Pos(), len(dup) == 0,
+				fmt.Sprintf("%v: an operator applied to the one terminal and to the other gets the same synthesised name, so both share one rule and sentences are added", dup), w3)
+		}
 		w2 := ""
 		if len(clash) > 0 {
 			w2 = "start = [\"*\"] [star]; star = \"x\";"
